@@ -1109,7 +1109,14 @@ class System:
         if thresh <= self.options.verbosity <= topthresh:
             if self.needsnl and wantsnl:
                 print()
-            print(msg, end='')
+            try:
+                print(msg, end='')
+            except UnicodeEncodeError:
+                # The message quotes input we do not control (a docstring, a line of a
+                # remote inventory): never let reporting a problem abort the run
+                # because the console cannot encode it.
+                encoding = getattr(sys.stdout, 'encoding', None) or 'ascii'
+                print(msg.encode(encoding, 'backslashreplace').decode(encoding), end='')
             if nonl:
                 self.needsnl = True
                 sys.stdout.flush()
